@@ -103,9 +103,13 @@ def check(ctx):
 
     # ------------------------------------------------------------------ R2
     gp = ex.func("get_paths")
-    rev = any(isinstance(n, ast.Call) and call_name(n) == "reversed" for n in ast.walk(gp))
+    # an odd number of reversals on the way to the returned tuple: reversed(...) calls and [::-1] slices
+    n_rev = sum(1 for n in ast.walk(gp) if isinstance(n, ast.Call) and call_name(n) == "reversed")
+    n_rev += sum(1 for n in ast.walk(gp) if isinstance(n, ast.Subscript) and isinstance(n.slice, ast.Slice) and n.slice.lower is None and n.slice.upper is None and isinstance(n.slice.step, ast.UnaryOp) and isinstance(n.slice.step.op, ast.USub) and const_value(n.slice.step.operand) == 1)
+    n_rev += sum(1 for n in ast.walk(gp) if isinstance(n, ast.Call) and last_attr(n) == "reverse" and not n.args)
+    rev = n_rev % 2 == 1
     cc = ctx.repo.module(CC)
-    uc = cc.func("CommandsCache.update_cache")
+    uc = flat(ctx, cc.func("CommandsCache.update_cache"), depth=2, skip=("_iter_binaries", "_update_and_check_changes", "get_possible_names", "get_paths"))
     udefs = df.all_defs(uc)
     # overwrite: all_cmds[cmd] = ... inside a loop over _iter_binaries(paths) without an `if cmd not in` guard
     ucfg = CFG(uc)
@@ -131,7 +135,17 @@ def check(ctx):
     LPATHS = names_defined_by(lp, lambda v: any(isinstance(x, ast.Call) and call_name(x) == "clear_paths" for x in ast.walk(v))) | names_defined_by(lp, lambda v: any(isinstance(x, ast.Call) and last_attr(x) == "get" and x.args and const_value(x.args[0]) == "PATH" for x in ast.walk(v)))
     LPATHS |= {n_ for n_ in list(LPATHS) for n_ in copies_of(df.all_defs(lp), n_)}
     LPATHS |= names_defined_by(lp, lambda v: bool(LPATHS & df.names_read(v)) and isinstance(v, ast.Call) and call_name(v) in ("tuple", "list", "clear_paths"))
-    ok = any(isinstance(n, ast.Call) and call_name(n) == "itertools.product" and [unparse(a) for a in n.args][:1] and unparse(n.args[0]) in LPATHS for n in ast.walk(lp)) and not any(isinstance(n, ast.Call) and call_name(n) in ("reversed", "sorted") for n in ast.walk(lp))
+    def path_major(n):
+        """a product / nested comprehension / nested loop whose OUTER iteration runs over the directory list"""
+        if isinstance(n, ast.Call) and call_name(n) == "itertools.product" and n.args and unparse(n.args[0]) in LPATHS:
+            return True
+        if isinstance(n, (ast.GeneratorExp, ast.ListComp)) and len(n.generators) >= 2 and unparse(n.generators[0].iter) in LPATHS:
+            return True
+        if isinstance(n, ast.For) and unparse(n.iter) in LPATHS and any(isinstance(m_, ast.For) for m_ in ast.walk(ast.Module(body=n.body, type_ignores=[]))):
+            return True
+        return False
+
+    ok = any(path_major(n) for n in ast.walk(lp)) and not any(isinstance(n, ast.Call) and call_name(n) in ("reversed", "sorted") for n in ast.walk(lp))
     ctx.ob("R2", f"{EX}:locate_file_in_path_env", "the direct search scans $PATH front to back (directory-major) and returns the first hit", ok, key="path-scan-order")
 
     # ------------------------------------------------------------------ R3
@@ -167,16 +181,18 @@ def check(ctx):
     ctx.ob("R4", f"{CC}:CommandsCache._update_and_check_changes", "a change of the alias set triggers a rebuild", ("call", "self._update_aliases_cache") in terms, key="rebuild|aliases")
     ctx.ob("R4", f"{CC}:CommandsCache._update_and_check_changes", "a changed directory listing (mtime) triggers a rebuild", ("call", "self._update_paths_cache") in terms, key="rebuild|mtimes")
     # the $PATH list itself: some returned term compares the directory list with a remembered one
+    chdefs = df.all_defs(ch)
+    PP = {pp} | names_defined_by(ch, lambda v: pp in df.names_read(v) and isinstance(v, ast.Call) and call_name(v) in ("tuple", "list"), chdefs)
     cmp_ok = False
     for n in ast.walk(ch):
-        if isinstance(n, ast.Compare) and pp in df.names_read(n) and any(isinstance(x, ast.Attribute) and isinstance(x.value, ast.Name) and x.value.id == "self" for x in ast.walk(n)):
+        if isinstance(n, ast.Compare) and (PP & df.names_read(n)) and any(isinstance(x, ast.Attribute) and isinstance(x.value, ast.Name) and x.value.id == "self" for x in ast.walk(n)):
             tgt = None
             p_ = parent(n)
             if isinstance(p_, ast.Assign) and isinstance(p_.targets[0], ast.Name):
                 tgt = p_.targets[0].id
             if tgt and any(tgt in df.names_read(r.value) for r in rets) or any(n in list(ast.walk(r.value)) for r in rets):
                 cmp_ok = True
-    stored = any(isinstance(n, ast.Assign) and isinstance(n.targets[0], ast.Attribute) and pp in df.names_read(n.value) for n in walk_local(ch))
+    stored = any(isinstance(n, ast.Assign) and isinstance(n.targets[0], ast.Attribute) and (PP & df.names_read(n.value)) for n in walk_local(ch))
     ctx.ob("R4", f"{CC}:CommandsCache._update_and_check_changes", "a reordered or shortened $PATH (no directory modified) triggers a rebuild: the directory list is compared with the one the map was built from", cmp_ok and stored, key="rebuild|path-list", where=loc(ch))
     ok = any(call_name(c) == "self._update_and_check_changes" and c.args and unparse(c.args[0]) in PATHS for c in calls_in(uc))
     ctx.ob("R4", f"{CC}:CommandsCache.update_cache", "the rebuild is decided by the change detector on the current directory list", ok, key="update_cache|detector")
@@ -258,9 +274,10 @@ def check(ctx):
         raise AnalysisError(f"{CC}:CommandsCache._update_paths_cache: expected one loop that lists directories, found {len(loops)}")
     lcfg = CFG(loops[0].body)
     ldefs = df.all_defs(upc)
+    PCACHE = names_bound_to_text(upc, "self._paths_cache", ldefs) | {"self._paths_cache"}
     stores = []
     for n in lcfg.nodes:
-        if n.kind == "stmt" and isinstance(n.ast, ast.Assign) and any(isinstance(t, ast.Subscript) and unparse(t.value) == "self._paths_cache" for t in n.ast.targets):
+        if n.kind == "stmt" and isinstance(n.ast, ast.Assign) and any(isinstance(t, ast.Subscript) and unparse(t.value) in PCACHE for t in n.ast.targets):
             stores.append(n)
     if not stores:
         raise AnalysisError(f"{CC}:CommandsCache._update_paths_cache: no store into self._paths_cache inside the listing loop")
